@@ -307,8 +307,8 @@ impl Cx {
       d /= n;
       r
     };
-    // issuer duplicate
-    match digit(3) {
+    // issuer duplicate (URL and object forms)
+    match digit(6) {
       1 => {
         vc.insert("issuer".into(), json!(issuer));
         desc.push("vc.issuer=equal".into());
@@ -317,6 +317,23 @@ impl Cx {
         vc.insert("issuer".into(), json!("did:example:someone-else"));
         desc.push("vc.issuer=different".into());
         must_reject.push("issuer");
+      }
+      3 => {
+        // same id, but the duplicate is an object carrying more than the registered claim says
+        vc.insert("issuer".into(), json!({"id": issuer, "name": "Example University"}));
+        desc.push("vc.issuer=object-vs-url".into());
+        must_reject.push("issuer");
+      }
+      4 => {
+        claims.insert("iss".into(), json!({"id": issuer, "name": "Example University"}));
+        vc.insert("issuer".into(), json!({"id": issuer, "name": "Another Name"}));
+        desc.push("vc.issuer=object-differs-in-member".into());
+        must_reject.push("issuer");
+      }
+      5 => {
+        claims.insert("iss".into(), json!({"id": issuer, "name": "Example University"}));
+        vc.insert("issuer".into(), json!({"id": issuer, "name": "Example University"}));
+        desc.push("vc.issuer=object-equal".into());
       }
       _ => {}
     }
@@ -657,11 +674,11 @@ fn main() {
   for _ in 0..n / 3 {
     cx.presentation_roundtrip(&mut rng);
   }
-  // tampered credential claims: 3*3*2*3*2*3*2*3*4 = 7776 vectors, all enumerated (x date extremes drawn at random)
+  // tampered credential claims: 6*3*2*3*2*3*2*3*4 = 15552 vectors, all enumerated (x date extremes drawn at random)
   let reps = if args.thorough { 6 } else { 1 };
   let mut k = 0u64;
   for _ in 0..reps {
-    for idx in 0..7776u64 {
+    for idx in 0..15552u64 {
       k += 1;
       if args.mine(k) && (scale >= 1000 || idx % (1000 / scale.max(1)) == 0) {
         cx.tampered_credential(&mut rng, idx);
